@@ -713,3 +713,22 @@ def b_run_async_from_sync(ex, path, ca, node):
     if isinstance(v, Coro):
         return [(path, v)]
     return ex.await_value(path, v, node)
+
+
+@builtin("_")
+def b_gettext(ex, path, ca, node):
+    """i18n `_()`: identity on control flow (DESIGN 2.3)."""
+    return [(path, ca.pos[0])]
+
+
+def _str_format(ex, path, recv, ca, node):
+    # message text only: an uninterpreted string of the arguments
+    return [(path, S(fresh("formatted", Str)))]
+
+
+def _str_join(ex, path, recv, ca, node):
+    return [(path, S(fresh("joined", Str)))]
+
+
+STR_METHODS["format"] = _str_format
+STR_METHODS["join"] = _str_join
